@@ -276,7 +276,9 @@ EXTRA = {'C01': 'Each configuration additionally runs with failing appenders (no
         'third of the builds give the root its level afterwards through Config::root_mut(). Scale: 255 .. 65537 '
         'configured sibling loggers. Declarations reach the builders one at a time, in bulk, mixed, or through bulk '
         'calls with one item. A second instance (MC_Routing_long) has a ten-character name of one component next to '
-        'names of two and three components, with targets up to three components below them.',
+        'names of two and three components, with targets up to three components below them. A second pass over every '
+        'third configuration logs level by level with every target copied into one reused buffer (routing is by the '
+        'text of the target, not by where it lives or what the previous call was turned away for).',
  'C02': ' Every other record goes the way the macro goes but carries the name of a configured logger as module path '
         "and file. The configuration pool spells names with '-' and '_' (distinct loggers, both spellings as "
         'targets). Every other reconfiguration of a history lands inside a log call of the same thread (at the '
@@ -289,7 +291,8 @@ EXTRA = {'C01': 'Each configuration additionally runs with failing appenders (no
         'attachments around 2^8 / 2^16. A fifth of the configurations are declared in a configuration document '
         '(RawConfig + appenders_lossy) with unbuildable filter entries around the chain (Fanout.tla, Effective). A '
         'third sink kind is a log4rs Logger of its own attached as an appender. Scale: records with 16 .. 300 '
-        'attachments of failing appenders (one handler call each).',
+        'attachments of failing appenders (one handler call each). Failing appenders return errors of several kinds '
+        '(a message, I/O errors of kind Interrupted and WouldBlock, a wrapped one).',
  'C04': ' Truncate-mode scenarios get a successor appender as well. Every fourth scenario hands over to a successor '
         'appender opened on the same path while the first was alive; one long lifetime (180 records) per batch. '
         'FileAppender.tla has EncodeFail and Close: the traces script encoder failures (also as the first record '
@@ -299,7 +302,9 @@ EXTRA = {'C01': 'Each configuration additionally runs with failing appenders (no
         'implementations that give up part-way (the resulting panic is data). SharedFile.tla (two appenders alive on '
         'one path, each with a thread of its own; whole records are promised below the buffer size only - negative '
         'control) is model-checked, and the files that real appenders leave behind must each be reachable in it '
-        '(Trace_SharedFile.tla).',
+        '(Trace_SharedFile.tla). A durability scenario under a file size limit: 2 KB messages (once a literal '
+        'without format arguments) through the stock pattern encoder - an acknowledged record is in the file in '
+        'full.',
  'C05': 'The replay materialises every behaviour five times: 10-byte units with DeleteRoller, 400-byte units with a '
         'two-chunk encoder (straddling the 1 KiB BufWriter), 16-byte units with gzip archives and an appender built '
         'from a configuration value, 12-byte units with the index in a directory component of the archive pattern, '
@@ -331,7 +336,8 @@ EXTRA = {'C01': 'Each configuration additionally runs with failing appenders (no
         "template's variable value contains the index placeholder, a sixth template has the index inside a variable "
         'name; windows straddle 2^8 and 2^16. Wipe: the archive directory is removed with everything in it between '
         'two rolls. A ninth template has a $ENV reference in the last component whose value brings directories '
-        "along. Bystanders include neighbours of the newest archive's name (.tmp, ~, .part).",
+        "along. Bystanders include neighbours of the newest archive's name (.tmp, ~, .part). A second roller "
+        'instance for the same pattern takes every third roll.',
  'C08': 'The replay materialises every behaviour five times: 10-byte units with DeleteRoller, 400-byte units with a '
         'two-chunk encoder (straddling the 1 KiB BufWriter), 16-byte units with gzip archives and an appender built '
         'from a configuration value, 12-byte units with the index in a directory component of the archive pattern, '
@@ -357,23 +363,27 @@ EXTRA = {'C01': 'Each configuration additionally runs with failing appenders (no
         'record of the same thread fails half-way before each case. Sink scripts include interrupted calls (accept '
         'value 0). The spec is attached to the formatter, a group, the active conditional group, and - for the empty '
         'text - the inactive one around a non-empty body. A fourth carrier is a group around the text as literal '
-        'characters of the pattern. Exact cases for minimum, maximum and group widths at 2^16 - 1 .. 2^21 + 1.',
+        'characters of the pattern. Exact cases for minimum, maximum and group widths at 2^16 - 1 .. 2^21 + 1. Every '
+        'eighth case of two carriers has an empty highlight group in front of the message inside the group.',
  'C11': 'The curated family includes alignment nested in alignment (re-entrant width writers); every fourth case '
         'encodes into a sink that accepts only a prefix per write call. FieldWidths.tla runs in the same check; the '
         'family has absurd widths on literal-only and nested groups. Placeholders stand for 2- and 3-byte '
-        'representatives in turn. The family has the long names of the group formatters with 0 and 2 arguments.',
+        'representatives in turn. The family has the long names of the group formatters with 0 and 2 arguments. '
+        'Patterns with a highlight group are also encoded at every record level (no panic).',
  'C12': 'Sinks accept everything, one byte, three bytes or 7/1/64 bytes per write call; every other record uses an '
         'encoder built from a configuration value; an earlier record of the same thread fails part-way into its '
         'sink. A style request from the JSON encoder is a violation; Fragments.tla runs in the same check; the '
         'two-byte class includes C1 controls. Records with fields of 255 .. 70001 characters are added beyond the '
         "model's length bound; sinks interrupt calls. In two of three cases a pattern encoder has rendered thread "
-        'name, ids and context map on the thread before.',
+        "name, ids and context map on the thread before. Where the MDC is empty, every third record's message "
+        'inserts into it while it is rendered: one JSON object, the map as before or after.',
  'C13': 'The declarations reach the builders one at a time, in bulk and in mixtures of both (appender()/appenders(), '
         'logger()/loggers(), and the same for references). Every other case renames the appender namespace onto the '
         'strings logger names are made of. Scale: 21 .. 300 loggers with one name declared three times (first '
         'declaration wins, two duplicates reported). Declarations carry a level and an additive flag that depend on '
         'their position; what a lossy build keeps is compared with what was declared. Logger names with a two-byte '
-        'letter; a panic of the builders is reported, not fatal to the replay.',
+        'letter; a panic of the builders is reported, not fatal to the replay. In a third of the cases one '
+        "appender's name is the empty string.",
  'C14': 'Registry.tla (insert / clone / lookup of deserializers per trait and kind, 192k histories) is replayed on '
         'log4rs::config::Deserializers in the same run. Wrong-typed kinds at every level; a zero limit as a bare '
         'integer; ConfigFormat.tla (which reader a file name gets) runs in the same check. The surviving file / '
@@ -382,7 +392,7 @@ EXTRA = {'C01': 'Each configuration additionally runs with failing appenders (no
         "reloader adopts after reading it. A time trigger's two-hour interval is spelled differently in each "
         'rendering (2 HOURS, 2 hourS, 7200, 2 Hours). Reference lists include a name given twice in a row (two '
         'deliveries per record). A path whose reference expands to the text of another reference (one pass, as for '
-        'the builders).',
+        'the builders). A pattern key that is present and empty (not the default pattern).',
  'C15': 'The refresh thread itself is covered impl->spec: scripted lifetimes of the real init_file thread (hook '
         'reloader.sleep) are validated as traces against Reloader.tla (Trace_Reloader.tla): every sleep lasts the '
         'rate of the last applied file. A directed scenario parks a logging thread inside Logger::enabled (hook '
@@ -393,7 +403,8 @@ EXTRA = {'C01': 'Each configuration additionally runs with failing appenders (no
         'and must equal MaxLevel of the applied version. One reload of the live scenarios takes longer than every '
         'refresh rate in use (45 ms): later edits must still be applied. In the YAML rendering, versions v and v + 2 '
         'differ in one line break at the end of the file (part of a keep-chomped block scalar). Every other child of '
-        'the live scenarios runs with a standard error stream nobody reads.',
+        'the live scenarios runs with a standard error stream nobody reads. In every fourth live scenario the '
+        'modification times are the moment of the edit.',
  'C16': 'Every other history builds the whole appender (compound policy, trigger kind `time`) from a configuration '
         'value. Random-delay bounds up to u64::MAX. Counts of hours / minutes / seconds around 2^31 / 2^32 seconds '
         'and at the 1000-year maxima (NextTimeBig); lifetimes of 300 arrivals sampled with TLC -simulate. Every DST '
@@ -410,7 +421,7 @@ EXTRA = {'C01': 'Each configuration additionally runs with failing appenders (no
         'materialisation the configured path is a symbolic link to the file found at start-up. Long behaviours are '
         'sampled with TLC -simulate. With a limit of one unit the configuration leaves min_size out (the documented '
         'default of one byte). Append::flush is called right after every build of the rolling replay (it is no '
-        'action of Rolling.tla).',
+        'action of Rolling.tla). In two materialisations the configured path is spelled with a $ENV reference.',
  'C18': 'After every append the child writes a marker to the descriptor itself: each record must be on the stream '
         'when its append returns; every row runs with builder- and configuration-built appenders, with and without a '
         'final newline in the pattern. A fourth pattern variant logs a 2 KiB literal behind a newline; after the '
@@ -422,7 +433,8 @@ EXTRA = {'C01': 'Each configuration additionally runs with failing appenders (no
         "against the same specification with Locked = FALSE: pieces alternate freely, every call's bytes arrive "
         'whole, escape sequences included. In one pattern variant one append fails with a broken pipe, the stream is '
         're-pointed at a file, and the same appender must write there. In one variant a record is appended whose '
-        'message logs through the same appender while it is rendered.',
+        'message logs through the same appender while it is rendered. One variant has a highlight group with a '
+        'minimum width only.',
  'C19': 'A fifth site rolls three times through a window of two with the index before the reference (an expansion '
         "containing '/' puts the index into a directory component). The environment holds a variable with an "
         'ill-formed name. A sixth site uses a relative path (reference at byte 0) in a scratch working directory. A '
@@ -434,7 +446,8 @@ EXTRA = {'C01': 'Each configuration additionally runs with failing appenders (no
         'doubled plural endings and one letter too many. Every interval literal also builds the `time` trigger '
         '(accepted exactly between one unit and 1000 years, never a panic); junk units up to 257 letters. Every '
         'literal also travels through TOML and as a signed configuration value. Junk units include valid units with '
-        'one letter missing (ib, ki, econd, ...). Numbers with twenty leading zeros.'}
+        'one letter missing (ib, ki, econd, ...). Numbers with twenty leading zeros. White space between number and '
+        'unit includes U+00A0 and U+000B.'}
 
 NOT_YET = "check not built yet in this round (planned, see DESIGN.md section 7)"
 
